@@ -110,6 +110,12 @@ pub async fn request_certificate(
 	let (order, order_url) = loop {
 		let new_order = NewOrder::new(&cert.identifiers);
 		let new_order = serde_json::to_string(&new_order)?;
+		let used_account_url = account_s
+			.read()
+			.await
+			.get_endpoint(&endpoint_name)?
+			.account_url
+			.clone();
 		let data_builder = set_data_builder!(account_s, endpoint_name, new_order.as_bytes()).await;
 		// The endpoint lock must be released before the match: the error branch
 		// locks the endpoint again in order to register the account.
@@ -124,11 +130,14 @@ pub async fn request_certificate(
 			Err(e) => {
 				if !new_reg && e.is_acme_err(AcmeError::AccountDoesNotExist) {
 					drop(data_builder);
-					account_s
-						.write()
-						.await
-						.register(&mut *(endpoint_s.write().await))
-						.await?;
+					let mut account = account_s.write().await;
+					// Another certificate sharing this account may have registered
+					// it again while this request was in flight.
+					if account.get_endpoint(&endpoint_name)?.account_url == used_account_url {
+						account
+							.register(&mut *(endpoint_s.write().await))
+							.await?;
+					}
 					new_reg = true;
 				} else {
 					return Err(HttpError::in_err(e));
